@@ -1,11 +1,13 @@
 /-
 C20 — Priority queues: stable minimum extraction and non-aliasing keys.
 
-Property theorems only; helper lemmas are in Lemmas/PQLemmas.lean.  Every statement is for every
+Property theorems only; helper lemmas are in Lemmas/PQLemmas.lean and Lemmas/Heap*.lean.  Every statement is for every
 reachable queue / every operation history — no bound on length, keys or values.
 -/
 import NexoVerif.Model.PQ
 import NexoVerif.Lemmas.PQLemmas
+import NexoVerif.Lemmas.HeapRefine
+import NexoVerif.Extracted
 
 namespace NexoVerif.PQ
 set_option linter.unusedSimpArgs false
@@ -184,3 +186,75 @@ example : (((IPQ.new.insert 5 1).1.runOps [.pull, .ins 7 9]).extract 0 0).2 = no
 example : (IPQ.new.insert 5 1).1.err = false := by decide
 
 end NexoVerif.PQ
+
+/-! ## C20.5  the binary heap inside the keyed queue (M-HEAP)
+
+`IPQ` above says *which* entry `pull` designates ("the used node with the least (key, epoch)").  M-HEAP is the code:
+the heap array, the slab nodes with their back-pointing heap index, `sift_up` and `sift_down` moving parents / children
+into a vacant spot.  The theorems below say that the code computes what `IPQ` says, for every history. -/
+
+namespace NexoVerif.Heap
+open NexoVerif.PQ (IPQ)
+
+/-- **heap_program_shape** — the text of `insert`, `pull`, `extract`, `peek`, `peek_key`, `sift_up`, `sift_down` and the
+field order of `UniqueKey` that M-HEAP was transliterated from, compared on every run (comments and white space
+aside). -/
+theorem heap_program_shape :
+    Extracted.ipqInsertIsAsModelled = true ∧ Extracted.ipqPullIsAsModelled = true ∧
+    Extracted.ipqExtractIsAsModelled = true ∧ Extracted.ipqSiftUpIsAsModelled = true ∧
+    Extracted.ipqSiftDownIsAsModelled = true ∧ Extracted.ipqPeekIsAsModelled = true ∧
+    Extracted.ipqPeekKeyIsAsModelled = true ∧ Extracted.ipqUniqueKeyIsKeyThenEpoch = true := by decide
+
+/-- **heap_and_slab_stay_cross_indexed_and_ordered** — after every history of inserts, pulls and extractions (with any
+keys, live, stale or forged): every heap item points at a used slab node inside the slab whose `heap_idx` points back
+at it, every used slab node points at a heap item inside the heap that points back at it (so no index of `sift_up`,
+`sift_down`, `pull`, `extract` is out of bounds and no `unwrap_*` hits the wrong kind of node), and every heap item is
+at least its parent in the order of `UniqueKey`. -/
+theorem heap_and_slab_stay_cross_indexed_and_ordered (ops : List HOp) :
+    let q := HQ.new.runOps ops
+    (∀ k, k < q.heap.size → (rd q.heap k).slab < q.slab.size ∧ ∃ v, rd q.slab (rd q.heap k).slab = .used v k) ∧
+    (∀ j v hi, j < q.slab.size → rd q.slab j = .used v hi → hi < q.heap.size ∧ (rd q.heap hi).slab = j) ∧
+    (∀ k, 0 < k → k < q.heap.size → ¬ (rd q.heap k).lt (rd q.heap ((k - 1) / 2))) := by
+  intro q
+  have i : HInv q := HInv.new.runOps ops
+  exact ⟨i.x.fwd, i.x.bwd, i.o⟩
+
+/-- **heap_root_is_a_least_entry** — after every history the first item of the heap array (what `pull`, `peek` and
+`peek_key` read) is not above any other item: no item has a smaller key, or the same key and a smaller epoch. -/
+theorem heap_root_is_a_least_entry (ops : List HOp) :
+    let q := HQ.new.runOps ops
+    ∀ k, k < q.heap.size → ¬ (rd q.heap k).lt (rd q.heap 0) := by
+  intro q k hk
+  exact (HInv.new.runOps ops).o.root_le k hk
+
+/-- **heap_code_refines_the_keyed_queue** — run any history on the transliterated code (M-HEAP) and on the mid-level
+model `IPQ` the theorems of C20.3 / C20.4 are about: the two states have the same slab layout (same free list, same
+epochs, every used node standing for the same key, epoch and value), and every operation then gives the same answer:
+the same raw insert key, the same pulled / peeked entry, the same result of an extraction through any key. -/
+theorem heap_code_refines_the_keyed_queue (ops : List HOp) :
+    let q := HQ.new.runOps ops
+    let m := IPQ.new.runOps (ops.map HOp.toIOp)
+    Abs q m ∧
+    (∀ k v, (q.insert k v).2 = (m.insert k v).2) ∧ q.pull.2 = m.pull.2 ∧
+    (∀ i e, (q.extract i e).2 = (m.extract i e).2) ∧ q.peek = m.peek ∧ q.peekKey = m.peekKey ∧ q.err = m.err := by
+  intro q m
+  have s : Sim q m := Sim.new.runOps ops
+  exact ⟨s.abs, fun k v => (s.abs.insert s.inv k v).2, (s.abs.pull s.inv s.distinct).2,
+    fun i e => (s.abs.extract s.inv i e).2, (s.abs.peek s.inv s.distinct).1, (s.abs.peek s.inv s.distinct).2,
+    s.abs.er.symm⟩
+
+/-- **sift_loops_keep_every_other_entry** — `sift_up` (`sift_down`) started with a vacant spot and the item kept
+aside changes what no slab node stands for, except the node of that item, which then stands for the item's key and
+epoch: the loops lose, duplicate or mix up no entry, wherever they stop. -/
+theorem sift_loops_keep_every_other_entry (h : Array HItem) (s : Array SNode) (item : HItem) (i : Nat)
+    (x : Cross h s i item.slab) (j : Nat) (hj : j < s.size) :
+    cont (siftUp h s item i).1 (siftUp h s item i).2 j = (if j = item.slab then ownNode s item else cont h s j) ∧
+    cont (siftDown h s item i).1 (siftDown h s item i).2 j = (if j = item.slab then ownNode s item else cont h s j) :=
+  ⟨siftUp_cont h s item i x j hj, siftDown_cont h s item i x j hj⟩
+
+-- non-vacuity of the hypothesis of `sift_loops_keep_every_other_entry`: the state `insert` starts `sift_up` from
+example : Cross #[default] #[.used 7 0] 0 (⟨3, 0, 0⟩ : HItem).slab :=
+  ⟨fun k hk kn => by simp at hk; omega, fun j v hi hj hu jn => by simp at hj jn; omega,
+    ⟨by simp, 7, 0, by simp [rd]⟩, by simp⟩
+
+end NexoVerif.Heap
